@@ -114,7 +114,8 @@ SumRecord == [st |-> "sum", a |-> Join(Render(v_a)), sign |-> IF v_n = 0 - 1 THE
               expect |-> LevelSumTerm(v_a, <<"x">>, IF v_n \in {2, 3} THEN <<"x">> ELSE <<"y">>, IF v_n = 0 - 1 THEN 0 - 1 ELSE 1),
               tags |-> {"level_sum", LName} \cup (IF v_n \in {2, 3} THEN {"same_operand"} ELSE {})]
 \* scenario classes that apply to every pair (temperature pairs included): uncertain sources
-Header == [st |-> "header", uncertainties |-> Uncertainties]
+Header == [st |-> "header", uncertainties |-> Uncertainties,
+           sum_pairs |-> [k \in 1..Len(SumPairsdB) |-> [a |-> SumPairsdB[k][1], b |-> SumPairsdB[k][2], sub |-> SubDefined(SumPairsdB[k])]]]
 EmitInv == Emit =>
    /\ v_st = "root" => PrintT(ToJson(Header))
    /\ v_st \in {"pair", "frac"} /\ Kind # "" => PrintT(ToJson(PairRecord))
